@@ -187,8 +187,8 @@ func TestVerifC10Log(t *testing.T) {
 		return
 	}
 	for _, c := range vCorpus(t, "C10") {
-		if len(c) > 0 && strings.HasPrefix(c[0], "begin") {
-			check(c)
+		if len(c) > 0 && strings.HasPrefix(c[0], "begin") && !strings.Contains(strings.Join(c, "\n"), "\nsub ") {
+			check(c) // partition-level cases (sub/drain) belong to TestVerifC10 in package server
 		}
 	}
 	n := 700
